@@ -54,6 +54,9 @@ func dumpReal(n *yqlib.ExpressionNode) string {
 		return "_"
 	}
 	s := n.Operation.OperationType.Type
+	if v, ok := n.Operation.Value.(string); ok && s == "ENVSUBST" && strings.HasPrefix(v, "ENVSUBST") {
+		s = v // envsubst describes its options in the operation's value (the operation type is shared by all expressions)
+	}
 	if d := realDetail(n); d != "" {
 		s += "<" + d + ">"
 	}
